@@ -20,6 +20,7 @@ import (
 // mode 0: durationForAttempt(N) on a fresh value     (VerifBackoffForAttempt)
 // mode 1: N calls of duration() on a fresh value     (VerifBackoffSeq)
 // mode 2: K calls, reset(), N calls                  (VerifBackoffSeqReset)
+// mode 4: durationForAttempt(n) / duration() / reset() in any order on ONE value (VerifBackoffOps)
 // mode 3: a real Client + StreamManager against the scripted server: session up, then
 //
 //	for every entry m of Outages: drop, m transient negotiation failures, success;
@@ -34,6 +35,14 @@ type c19In struct {
 	K        int   `json:"k,omitempty"`
 	N        int   `json:"n"`
 	Outages  []int `json:"outages,omitempty"`
+	// mode 3: how each outage starts: "" / "drop" = the connection is cut (Disconnected event), "serr" = the server
+	// sends <stream:error><system-shutdown/></stream:error></stream:stream> (StreamError event, the manager's second
+	// entry into its retry loop)
+	Starts []string `json:"starts,omitempty"`
+
+	// mode 4: ONE backoff value driven through operations in any order: [0, n] durationForAttempt(n), [1, 0]
+	// duration(), [2, 0] reset()
+	Ops [][2]int `json:"ops,omitempty"`
 
 	// filled by Run: what the implementation returned (ns), or panicked. With jitter
 	// the observed values are handed to the model as its rand oracle (see RunC19.v).
@@ -67,7 +76,7 @@ func (c19) ID() string    { return "C19" }
 func (c19) RunFn() string { return "run_C19" }
 func (c19) Workers() int  { return 8 }
 func (c19) Rule() string {
-	return "random positive (base, factor, cap): mostly in [1, 2^40] ms, one case in twelve anywhere up to MaxInt64 (around MaxInt64/10^6 ms = the longest Duration, around 2^53, powers of two, MaxInt64 = 'uncapped': the delay must then saturate at the longest Duration instead of wrapping - D22, repaired) (small values, powers of two, values at and just below 2^40, zero = default; the defaults are read from the live code through VerifBackoffDefaults, only 'at most three minutes when the cap is left unset' is a literal of the property), with and without jitter (a jittered delay is compared through its range only: 0 <= delay <= the no-jitter delay of that attempt, any resolution), through durationForAttempt(n) (n = 0..70, around the attempt where base*factor^n passes the cap, around the attempts where factor^n and base*factor^n overflow float64, 2^31-1 / 2^31 / 2^31+1, random up to 2^31, 2^53, 2^62, MaxInt64), duration() sequences (up to 70 calls, a few past the float64 overflow point) and duration() sequences after k calls and reset(); cap below / equal to the base and cap = base*factor^k-1, +0, +1 (with attempt 0, factor 1 and the attempts around k) through both APIs; a systematic float64-boundary block (factors 1 2 3 10 65537, more in the thorough tier: base*factor^n placed at -1/+0/+1 of MaxInt64/10^6 ms, 2^52, 2^53 and MaxInt64, cap at the product -1/+0/+1, at the boundary and at MaxInt64, attempts n-1 n n+1 without jitter, n with jitter, and the duration() sequence through the boundary; Coq C19_float_robust states what is assumed of float64 there); StreamManager scenarios (real Client + StreamManager on the scripted TCP server: session, drop, 5-8 transient negotiation failures, success, second drop, 2-3 failures, success, Stop): the wait after the n-th failed attempt of EVERY outage, measured on the server between the end of that attempt and the next accept, is at most default_base*default_factor^n ms + 500 ms slack (defaults read from the live code), i.e. the sequence restarts after a successful reconnection (Coq: C19_stream_manager_waits is the statement for the value the StreamManager declares - jitter on, everything unset; C19_outages_bounded the general one; C19_outages_restart gives the no-jitter values the model returns as bounds for the observed attempt counts); a malformed stream outside the property's quantification (negative base / factor / cap, negative attempt numbers: both sides answer a constant, the call only has to leave the harness alive); distinct = distinct (mode, jitter, bit lengths of base/factor/cap, class of n relative to the cap crossing / float overflow); non-trivial = positive parameters within the bound, factor >= 2, base < cap and at least one observed attempt number >= 1"
+	return "random positive (base, factor, cap): mostly in [1, 2^40] ms, one case in twelve anywhere up to MaxInt64 (around MaxInt64/10^6 ms = the longest Duration, around 2^53, powers of two, MaxInt64 = 'uncapped': the delay must then saturate at the longest Duration instead of wrapping - D22, repaired) (small values, powers of two, values at and just below 2^40, zero = default; the defaults are read from the live code through VerifBackoffDefaults, only 'at most three minutes when the cap is left unset' is a literal of the property), with and without jitter (a jittered delay is compared through its range only: 0 <= delay <= the no-jitter delay of that attempt, any resolution), through durationForAttempt(n) (n = 0..70, around the attempt where base*factor^n passes the cap, around the attempts where factor^n and base*factor^n overflow float64, 2^31-1 / 2^31 / 2^31+1, random up to 2^31, 2^53, 2^62, MaxInt64), duration() sequences (up to 70 calls, a few past the float64 overflow point) and duration() sequences after k calls and reset(); cap below / equal to the base and cap = base*factor^k-1, +0, +1 (with attempt 0, factor 1 and the attempts around k) through both APIs; ONE value driven through durationForAttempt(n) / duration() / reset() in any order (2-30 operations: queries at, below and far beyond the attempt where the cap is reached, in non-monotone order, after capped answers and after waits, across resets; by construction in half of them a capped answer followed later by a query below the cap): every query must answer for ITS attempt number, every wait for the number of waits since the last reset (Coq C19_query_history_independent / C19_ops_are_queries); a systematic float64-boundary block (factors 1 2 3 10 65537, more in the thorough tier: base*factor^n placed at -1/+0/+1 of MaxInt64/10^6 ms, 2^52, 2^53 and MaxInt64, cap at the product -1/+0/+1, at the boundary and at MaxInt64, attempts n-1 n n+1 without jitter, n with jitter, and the duration() sequence through the boundary; Coq C19_float_robust states what is assumed of float64 there); StreamManager scenarios (real Client + StreamManager on the scripted TCP server: session, end of session, 5-8 transient negotiation failures, success, second end of session, 2-3 failures, success, Stop; a session ends by a cut connection or by a <stream:error><system-shutdown/> from the server - the manager's two entries into its retry loop - in every order): the wait after the n-th failed attempt of EVERY outage, measured on the server between the end of that attempt and the next accept, is at most default_base*default_factor^n ms + 500 ms slack (defaults read from the live code), i.e. the sequence restarts after a successful reconnection (Coq: C19_stream_manager_waits is the statement for the value the StreamManager declares - jitter on, everything unset; C19_outages_bounded the general one; C19_outages_restart gives the no-jitter values the model returns as bounds for the observed attempt counts); a malformed stream outside the property's quantification (negative base / factor / cap, negative attempt numbers: both sides answer a constant, the call only has to leave the harness alive); distinct = distinct (mode, jitter, bit lengths of base/factor/cap, class of n relative to the cap crossing / float overflow); non-trivial = positive parameters within the bound, factor >= 2, base < cap and at least one observed attempt number >= 1"
 }
 
 // ---- exact arithmetic shared by generator and oracle (math/big; no model) ----
@@ -253,14 +262,16 @@ func (c19) Gen(r *rand.Rand, tier string) []interface{} {
 	var out []interface{}
 	add := func(in c19In) { c := in; out = append(out, &c) }
 	// StreamManager scenarios first (they take seconds: start them early)
+	// every outage restarts at attempt 0 however it starts: with a lost connection or with a stream error from the server
 	add(c19In{Mode: 3, Outages: []int{6, 3}})
-	add(c19In{Mode: 3, Outages: []int{7, 3}})
-	add(c19In{Mode: 3, Outages: []int{6, 2, 2}})
+	add(c19In{Mode: 3, Outages: []int{7, 3}, Starts: []string{"drop", "serr"}})
+	add(c19In{Mode: 3, Outages: []int{6, 3, 2}, Starts: []string{"serr", "drop", "serr"}})
+	add(c19In{Mode: 3, Outages: []int{7, 3}, Starts: []string{"serr", "serr"}})
 	if tier == "thorough" {
 		for i := 0; i < 6; i++ {
-			add(c19In{Mode: 3, Outages: []int{5 + r.Intn(4), 2 + r.Intn(2)}})
+			add(c19In{Mode: 3, Outages: []int{5 + r.Intn(4), 2 + r.Intn(2)}, Starts: []string{[]string{"drop", "serr"}[r.Intn(2)], []string{"drop", "serr"}[r.Intn(2)]}})
 		}
-		add(c19In{Mode: 3, Outages: []int{0, 6, 0, 3}})
+		add(c19In{Mode: 3, Outages: []int{0, 6, 0, 3}, Starts: []string{"drop", "drop", "serr", "serr"}})
 	}
 	// fixed corners: defaults, the cap by default, reset regressions, D5 shape
 	for _, nj := range []bool{true, false} {
@@ -292,6 +303,27 @@ func (c19) Gen(r *rand.Rand, tier string) []interface{} {
 			add(c19In{Mode: 2, NoJitter: nj, Base: 0, Factor: f, Cap: 7, K: 3, N: 4})
 		}
 	}
+	// ONE value, operations in any order: the per-attempt query is a function of the attempt alone (backoff.go:
+	// "Keep the attempt counter on your end and use durationForAttempt(int)"), so a capped answer, earlier waits
+	// or a reset must not change what a later query for a smaller attempt returns
+	waits := func(k int) [][2]int {
+		var o [][2]int
+		for i := 0; i < k; i++ {
+			o = append(o, [2]int{1, 0})
+		}
+		return o
+	}
+	for _, nj := range []bool{true, false} {
+		add(c19In{Mode: 4, NoJitter: nj, Ops: [][2]int{{0, 30}, {0, 0}}})
+		add(c19In{Mode: 4, NoJitter: nj, Ops: [][2]int{{0, 14}, {0, 13}, {0, 1}, {0, 14}, {0, 0}}})
+		add(c19In{Mode: 4, NoJitter: nj, Ops: append(waits(30), [2]int{0, 0}, [2]int{0, 5}, [2]int{1, 0}, [2]int{2, 0}, [2]int{0, 3}, [2]int{1, 0})})
+		add(c19In{Mode: 4, NoJitter: nj, Ops: [][2]int{{0, math.MaxInt64}, {0, 0}, {1, 0}, {0, 1 << 31}, {1, 0}, {0, 2}}})
+		add(c19In{Mode: 4, NoJitter: nj, Base: 5, Factor: 3, Cap: 100, Ops: [][2]int{{0, 3}, {0, 2}, {0, 0}, {1, 0}, {1, 0}, {1, 0}, {1, 0}, {0, 1}, {1, 0}}})
+		add(c19In{Mode: 4, NoJitter: nj, Base: 1000, Factor: 2, Cap: 50, Ops: [][2]int{{0, 0}, {0, 5}, {0, 0}}}) // capped from attempt 0 on: nothing to forget
+		add(c19In{Mode: 4, NoJitter: nj, Base: 7, Factor: 1, Cap: 50, Ops: [][2]int{{0, 9}, {0, 0}, {1, 0}}})
+		add(c19In{Mode: 4, NoJitter: nj, Base: 1, Factor: 2, Cap: math.MaxInt64, Ops: [][2]int{{0, 70}, {0, 3}, {1, 0}}})
+	}
+
 	// D22 (repaired): caps beyond what a time.Duration can hold (MaxInt64/10^6 ms) used to
 	// give negative / wrapped / decreasing delays and, with jitter, a panic in rand.Intn
 	for _, nj := range []bool{true, false} {
@@ -449,7 +481,58 @@ func (c19) Gen(r *rand.Rand, tier string) []interface{} {
 			}
 		}
 		eb, ef, ec := c19GenParams(&in)
-		switch m := r.Intn(10); {
+		switch m := r.Intn(12); {
+		case m >= 10: // one value, mixed operations
+			in.Mode = 4
+			small := c19OutOfDomain(&in)
+			cross := -1
+			if !small {
+				cross = c19Cross(eb, ef, ec)
+			}
+			pickN := func() int {
+				if small {
+					return r.Intn(71)
+				}
+				switch r.Intn(6) {
+				case 0:
+					return c19N(r, eb, ef, ec)
+				case 1, 2:
+					if cross >= 0 {
+						return r.Intn(cross + 3)
+					}
+				case 3:
+					if cross >= 0 {
+						return cross + r.Intn(40)
+					}
+				}
+				return r.Intn(71)
+			}
+			nops := 2 + r.Intn(23)
+			for j := 0; j < nops; j++ {
+				switch k := r.Intn(20); {
+				case k < 10:
+					in.Ops = append(in.Ops, [2]int{0, pickN()})
+				case k < 17:
+					in.Ops = append(in.Ops, [2]int{1, 0})
+				default:
+					in.Ops = append(in.Ops, [2]int{2, 0})
+				}
+			}
+			if !small && cross >= 0 && r.Intn(2) == 0 {
+				// the shape by construction: something that answers the cap (a query beyond the crossing, or enough
+				// waits), then a query below it, somewhere later on the same value
+				if r.Intn(2) == 0 {
+					in.Ops = append(in.Ops, [2]int{0, cross + r.Intn(5)})
+				} else {
+					for j := 0; j <= cross && j < 80; j++ {
+						in.Ops = append(in.Ops, [2]int{1, 0})
+					}
+				}
+				for j := r.Intn(3); j > 0; j-- {
+					in.Ops = append(in.Ops, [2]int{1, 0})
+				}
+				in.Ops = append(in.Ops, [2]int{0, r.Intn(cross + 1)})
+			}
 		case m < 5:
 			in.Mode = 0
 			in.N = c19N(r, eb, ef, ec)
@@ -549,7 +632,32 @@ func (c19) Run(inp interface{}) (obs Sx) {
 // and inside the domain as long as its default is positive) or a negative attempt number.
 func c19OutOfDomain(in *c19In) bool {
 	base, factor, cp := c19Eff(in)
+	if in.Mode == 4 {
+		for _, op := range in.Ops {
+			if op[0] == 0 && op[1] < 0 {
+				return true
+			}
+		}
+	}
 	return base <= 0 || factor <= 0 || cp <= 0 || (in.Mode == 0 && in.N < 0)
+}
+
+// c19OpAttempts: the attempt number each value-returning operation of a mode-4 case is about (a query: its
+// argument; a wait: the number of waits since the last reset) and whether it is a query
+func c19OpAttempts(ops [][2]int) (attempts []int, isQuery []bool) {
+	a := 0
+	for _, op := range ops {
+		switch op[0] {
+		case 0:
+			attempts, isQuery = append(attempts, op[1]), append(isQuery, true)
+		case 1:
+			attempts, isQuery = append(attempts, a), append(isQuery, false)
+			a++
+		default:
+			a = 0
+		}
+	}
+	return
 }
 
 // c19Call drives the real code; panicked = the random draw refused its argument
@@ -574,6 +682,10 @@ func c19Call(in *c19In) (ds []int64, panicked bool) {
 		for _, d := range xmpp.VerifBackoffSeqReset(in.NoJitter, in.Base, in.Factor, in.Cap, in.K, in.N) {
 			ds = append(ds, int64(d))
 		}
+	case 4:
+		for _, d := range xmpp.VerifBackoffOps(in.NoJitter, in.Base, in.Factor, in.Cap, in.Ops) {
+			ds = append(ds, int64(d))
+		}
 	}
 	return
 }
@@ -595,6 +707,21 @@ func (c19) Input(inp interface{}) Sx {
 			ms[i] = Zi(m)
 		}
 		return L(Z(3), B(true), Z(0), Z(0), Z(0), Z(0), Zi(len(ms)), LS(ms))
+	}
+	if in.Mode == 4 {
+		var flat []Sx
+		j := 0
+		for _, op := range in.Ops {
+			r := int64(0)
+			if op[0] != 2 {
+				if !in.NoJitter && !in.panicked && j < len(in.ns) {
+					r = in.ns[j]
+				}
+				j++
+			}
+			flat = append(flat, Zi(op[0]), Zi(op[1]), Z(r))
+		}
+		return L(Z(4), B(in.NoJitter), Zi(in.Base), Zi(in.Factor), Zi(in.Cap), Z(0), Zi(len(flat)), LS(flat))
 	}
 	calls := in.N
 	if in.Mode == 0 {
@@ -626,7 +753,7 @@ func (c19) Oracle(inp interface{}, obs Sx) (string, string) {
 		// Report what that does: a panic in rand.Intn, or delays that are not positive.
 		return c19OracleBadDefault(in, obs, base, factor, cp)
 	}
-	mode := []string{"query", "seq", "reset"}[in.Mode]
+	mode := []string{"query", "seq", "reset", "", "ops"}[in.Mode]
 	sig := func(s string) string { return s + "-" + mode }
 	where := fmt.Sprintf("%s nojitter=%v base=%d factor=%d cap=%d", mode, in.NoJitter, base, factor, cp)
 	if in.Mode == 2 {
@@ -644,17 +771,34 @@ func (c19) Oracle(inp interface{}, obs Sx) (string, string) {
 		if len(calls) == 1 && len(calls[0].L) == 1 && calls[0].L[0].Z == 1 {
 			return where + ": rand.Intn panicked (positive parameters)", sig("panic")
 		}
-		if len(calls) != in.N {
+		if in.Mode != 4 && len(calls) != in.N {
 			return fmt.Sprintf("%s: %d delays returned for %d calls", where, len(calls), in.N), "shape"
+		}
+	}
+	var opAttempt []int
+	var opQuery []bool
+	if in.Mode == 4 {
+		opAttempt, opQuery = c19OpAttempts(in.Ops)
+		where += fmt.Sprintf(" ops=%v", in.Ops)
+		if len(calls) != len(opAttempt) {
+			return fmt.Sprintf("%s: %d delays returned for %d calls", where, len(calls), len(opAttempt)), "shape"
 		}
 	}
 	ms := big.NewInt(c19Ms)
 	capNs := new(big.Int).Mul(big.NewInt(int64(cp)), ms)
 	var prev *big.Int
+	where0 := where
 	for i, c := range calls {
 		attempt := i
 		if in.Mode == 0 {
 			attempt = in.N
+		}
+		if in.Mode == 4 {
+			attempt = opAttempt[i]
+			where = where0 + fmt.Sprintf(", call %d on this value = duration(),", i)
+			if opQuery[i] {
+				where = where0 + fmt.Sprintf(", call %d on this value = durationForAttempt(%d),", i, attempt)
+			}
 		}
 		if c.K != "l" || len(c.L) == 0 {
 			return "malformed observation", "shape"
@@ -691,7 +835,7 @@ func (c19) Oracle(inp interface{}, obs Sx) (string, string) {
 				return fmt.Sprintf("%s attempt %d: delay %d ns, but min(cap, base*factor^n) = %d ms is more than a time.Duration can hold: expected the longest Duration (%d ms)", where, attempt, d, wantMs, int64(c19MaxMs)), sig("formula-saturated")
 			}
 			// ... and is therefore non-decreasing
-			if prev != nil && d.Cmp(prev) < 0 {
+			if in.Mode != 4 && prev != nil && d.Cmp(prev) < 0 {
 				return fmt.Sprintf("%s attempt %d: delay %d ns is smaller than the previous one (%d ns)", where, attempt, d, prev), sig("monotone")
 			}
 			prev = d
@@ -711,7 +855,10 @@ func (c19) Key(inp interface{}) (string, bool) {
 	if in.Mode == 3 {
 		hist("mode:3")
 		hist("stream:stream-manager")
-		return fmt.Sprintf("3/%v", in.Outages), len(in.Outages) >= 2
+		for _, st := range in.Starts {
+			hist("sm-outage-start:" + st)
+		}
+		return fmt.Sprintf("3/%v/%v", in.Outages, in.Starts), len(in.Outages) >= 2
 	}
 	base, factor, cp := c19Eff(in)
 	stream := "valid"
@@ -732,6 +879,26 @@ func (c19) Key(inp interface{}) (string, bool) {
 	top := in.N // largest attempt number observed (+1 for sequences)
 	if in.Mode != 0 {
 		top = in.N - 1
+	}
+	if in.Mode == 4 {
+		top = -1
+		as, qs := c19OpAttempts(in.Ops)
+		capped, back := false, false
+		gb, gf, gcp := c19GenParams(in)
+		for i, a := range as {
+			if a > top {
+				top = a
+			}
+			if a >= 0 && c19Expect(gb, gf, gcp, a).Cmp(big.NewInt(int64(gcp))) == 0 {
+				capped = true
+			} else if capped && qs[i] {
+				back = true
+			}
+		}
+		if back {
+			hist("ops:query-below-cap-after-capped-answer")
+		}
+		hist(fmt.Sprintf("ops:len-%d", len(in.Ops)/8*8))
 	}
 	if cp > 0 && base > 0 && factor > 0 {
 		cross := c19Cross(base, factor, cp)
@@ -804,8 +971,14 @@ func c19RunSM(in *c19In) Sx {
 		return L(SBytes("incomplete"), SBytes(why))
 	}
 	cin := c13In{}
-	for _, m := range in.Outages {
-		rd := c13Round{Term: "drop"}
+	startOf := func(o int) string {
+		if o < len(in.Starts) && in.Starts[o] == "serr" {
+			return "serr"
+		}
+		return "drop"
+	}
+	for o, m := range in.Outages {
+		rd := c13Round{Term: startOf(o)}
 		for i := 0; i < m; i++ {
 			rd.Fails = append(rd.Fails, "transient")
 		}
@@ -897,7 +1070,13 @@ func c19RunSM(in *c19In) Sx {
 		sessions = 1
 		for o, m := range in.Outages {
 			time.Sleep(3 * time.Millisecond)
-			srv.drop(connIdx)
+			if startOf(o) == "serr" {
+				// RFC 6120 4.9.1.1: the error, then the closing tag; the scripted server ends the TCP connection when
+				// the client answers with its own closing tag
+				srv.push(connIdx, c13StreamError+"</stream:stream>")
+			} else {
+				srv.drop(connIdx)
+			}
 			connIdx += m + 1
 			if !waitPost(sessions+1, 40*time.Second) {
 				why = fmt.Sprintf("no session after outage %d", o+1)
@@ -1018,6 +1197,9 @@ func c19OracleSM(in *c19In) (string, string) {
 				if o > 0 {
 					what = "the back-off did not restart at attempt 0 after the successful reconnection"
 				}
+				if o < len(in.Starts) && in.Starts[o] == "serr" {
+					what += " (this outage started with a stream error from the server)"
+				}
 				return fmt.Sprintf("stream manager, outages %v: in outage %d the wait after failed attempt %d (counted from 0) was %d ms; bound min(3 min, %d*%d^%d) = %d ms (+%d ms slack): %s",
 					in.Outages, o+1, n, g/c19Ms, db, df, n, bound/c19Ms, c19SlackMs, what), "sm-wait-above-bound"
 			}
@@ -1029,7 +1211,7 @@ func c19OracleSM(in *c19In) (string, string) {
 // c19OracleBadDefault: an unset field took a default that is not positive (the observation
 // is the out-of-domain constant; what the code did is in the stash filled by Run).
 func c19OracleBadDefault(in *c19In, obs Sx, base, factor, cp int) (string, string) {
-	mode := []string{"query", "seq", "reset"}[in.Mode]
+	mode := []string{"query", "seq", "reset", "", "ops"}[in.Mode]
 	where := fmt.Sprintf("%s nojitter=%v base=%d factor=%d cap=%d (unset fields took the defaults %d/%d/%d)", mode, in.NoJitter, in.Base, in.Factor, in.Cap, base, factor, cp)
 	if in.panicked {
 		return where + ": the call panicked", "default-not-positive"
